@@ -2,6 +2,7 @@
 from . import core, symnp
 
 MODE = ["submission"]  # or "nondet"
+ORDERS = []  # completion orders chosen in the current path (one entry per pool with > 1 task)
 
 
 class SParallel:
@@ -17,6 +18,7 @@ class SParallel:
         if MODE[0] == "nondet" and len(tasks) > 1:
             order = symnp.nd_permutation(len(tasks), "sched")
             core.Ctx.cur.notes.append(("task_order", order))
+            ORDERS.append(list(order))
         res = [None] * len(tasks)
         for i in order:
             f, a, k = tasks[i]
